@@ -9,22 +9,28 @@ import DDS.Model.Codec
 import DDS.Driver.Util
 import DDS.Driver.StoreOps
 import DDS.Driver.CodecOps
+import DDS.Driver.SketchOps
 
 namespace DDS.Driver
 
 structure State where
   stores : StoreOps.Tbl := {}
+  sketches : SketchOps.Tbl := {}
 
 def step (st : State) (line : String) : State × Option String :=
   let toks := Util.tokens line
   match toks with
   | [] => (st, none)
   | cmd :: args =>
-    if cmd.startsWith "#" then (st, none)
+    if cmd = "#hist" then ({}, none)      -- every history starts from scratch
+    else if cmd.startsWith "#" then (st, none)
     else if cmd = "codec" then (st, some (CodecOps.run args))
     else if StoreOps.isStoreCmd cmd then
       let (t, out) := StoreOps.run st.stores cmd args
       ({ st with stores := t }, some out)
+    else if SketchOps.isSketchCmd cmd then
+      let (t, out) := SketchOps.run st.sketches cmd args
+      ({ st with sketches := t }, some out)
     else (st, some "bad-op")
 
 partial def loop (h : IO.FS.Stream) (out : IO.FS.Stream) (st : State) : IO Unit := do
